@@ -33,8 +33,8 @@ ASSUMPTIONS = [
     'the probe uses copy.deepcopy of the object and reads .positions of the copy (pickle/deepcopy are trusted)',
     'analysis queries may legitimately raise on degenerate data (e.g. no transition events); only their effect on the data is judged',
 ]
-N_CASES = {'quick': 320, 'thorough': 10000}
-BUDGET_S = {'quick': 220, 'thorough': 2400}
+N_CASES = {'quick': 320, 'thorough': 50000}
+BUDGET_S = {'quick': 220, 'thorough': 3600}
 
 _mon = Monitor()
 
@@ -179,7 +179,8 @@ def run_unit(unit, rng, ctx):
                         mm = o.metrics()
                         dgot = float(mm.tracer_diffusivity(dimensions=3))
                         dwant = float(np.mean(np.sum((cum[-1] @ m) ** 2, axis=1))) * 1e-20 / (6 * Tn * dt)
-                        ctx.check(abs(dgot - dwant) <= 1e-9 * max(abs(dwant), 1e-300), f'after {hist}: tracer_diffusivity of "{live.origin}" is {dgot!r}, its current frames give {dwant!r}', {'history': hist})
+                        d_noise = (1e-6) ** 2 * 1e-20 / (6 * Tn * dt)  # a displacement of 1e-6 A
+                        ctx.check(abs(dgot - dwant) <= 1e-9 * abs(dwant) + d_noise, f'after {hist}: tracer_diffusivity of "{live.origin}" is {dgot!r}, its current frames give {dwant!r}', {'history': hist})
                         _ = (mm.particle_density(), mm.vibration_amplitude())
                     elif op == 'drift':
                         _ = o.drift(fixed_species=live.names[0])
